@@ -315,7 +315,8 @@ L2Q, L2T = (50, 2), (600, 4)
 
 PLANS = {
     "C01": dict(mc=MC("sync", "mixed", thorough=["t_sync"]) + MCA("2p"), spec_l1l0=True, runs=[R("general", (250, 4000), (3, 6), "C01", True), R("sync", (150, 2000), (3, 6), "C01", True),
-                      R("async", (150, 2000), (3, 6), "C01", True), R("chain", (100, 2000), (2, 6), "C01", True)]),
+                      R("async", (150, 2000), (3, 6), "C01", True), R("chain", (100, 2000), (2, 6), "C01", True),
+                      R("pollfreeze", (0, 0), (1, 1), "C01", True, programs_fn=freeze_sweep("poll", (12, 200), (30, 45), "pollfreeze01"))]),
     "C02": dict(mc=MC("sync", "mixed", thorough=["t_sync"], bounded=["t_sync4"]), spec_l1l0=True, spec_l2l1=True, runs=[R("chain_s", (250, 4000), (3, 6), "C02", True), R("fifo", (250, 5000), (4, 8), "C02"), R("general", (150, 2000), (3, 5), "C02")]),
     "C03": dict(mc=MC("mixed", "async", thorough=["t_async"], bounded=["t_mixed"]) + MCA("2p"), spec_replay=True, spec_l1l0=True, spec_l2l1=True, runs=[R("general", (400, 8000), (3, 6), None, True), R("sync", (150, 2000), (3, 6), None, True),
                       R("async", (150, 3000), (3, 6), None, True), R("timed", (150, 3000), (3, 6), None, True),
@@ -323,7 +324,8 @@ PLANS = {
                       R("pairsweep", (0, 0), (1, 1), None, True, programs_fn=freeze_sweep("pair", (30, 800), (40, 60), "pairsweep", victims=(0, 1), from_phase=3, solo=1)),
                       R("discrace", (0, 0), (1, 1), None, True, programs_fn=discrace_sweep(48, (40, 60), "discrace03")),
                       R("seqhidden", (0, 0), (1, 1), None, True, programs_fn=hidden_programs),
-                      R("lockbusy", (0, 0), (1, 1), None, True, programs_fn=lockbusy_sweep(("block", "try", "drain"), (10, 14), "lockbusy03", nthird=(2, 7)))]),
+                      R("lockbusy", (0, 0), (1, 1), None, True, programs_fn=lockbusy_sweep(("block", "try", "drain"), (10, 14), "lockbusy03", nthird=(2, 7))),
+                      R("termrace", (0, 0), (1, 1), None, True, programs_fn=freeze_sweep("termrace", (10, 150), (14, 20), "termrace03", victims=(0,), from_phase=1, solo=1))]),
     "C05": dict(mc=MC("timed", "async", thorough=["t_async"], bounded=["t_timed"]) + MCA("2p"), spec_l1l0=True, runs=[R("general", (250, 4000), (3, 6), "C05", True), R("timed", (200, 3000), (3, 6), "C05", True),
                       R("async", (200, 3000), (3, 6), "C05", True), R("chain", (100, 2000), (2, 6), "C05", True),
                       R("discrace", (0, 0), (1, 1), "C05", True, programs_fn=discrace_sweep(16, (40, 60), "discrace05")),
@@ -346,7 +348,8 @@ PLANS = {
     "C08": dict(mc=MC("sync", thorough=["t_sync"]), spec_l1l0=True, runs=[R("capacity", (300, 5000), (3, 6), "C08", True), R("general", (150, 2000), (3, 5), "C08", True),
                                                            R("chain_z", (200, 3000), (2, 4), "C08", True), R("chain_s", (100, 2000), (2, 4), "C08", True),
                                                            R("casrace", (0, 0), (1, 1), "C08", True, own_all=True, programs_fn=casrace_sweep("casrace08")),
-                                                           R("seqfill", (0, 0), (1, 1), "C08", True, own_all=True, programs_fn=lambda tier, seed: list(gen.gen_seq_fill()))]),
+                                                           R("seqfill", (0, 0), (1, 1), "C08", True, own_all=True, programs_fn=lambda tier, seed: list(gen.gen_seq_fill())),
+                                                           R("lockbusy", (0, 0), (1, 1), "C08", True, own_all=True, programs_fn=lockbusy_sweep(("try",), (10, 14), "lockbusy08"))]),
     "C10": dict(mc=MC("sync", "timed", "closeclone", thorough=["t_sync"], bounded=["t_timed"]), spec_l1l0=True, spec_l2l1=True, runs=[R("close", (300, 5000), (3, 6), "C10", True), R("general", (150, 2000), (3, 5), "C10", True),
                       R("discrace", (0, 0), (1, 1), "C10", True, own_all=True, programs_fn=discrace_sweep(48, (40, 60), "discrace10")),
                       R("casrace", (0, 0), (1, 1), "C10", True, own_all=True, programs_fn=casrace_sweep("casrace10"))]),
@@ -359,7 +362,8 @@ PLANS = {
                                         R("handlepair", (0, 0), (1, 1), "C12", True, own_all=True, programs_fn=handlepair_sweep((10, 14), "handlepair12"))]),
     "C13": dict(mc=MC("timed", bounded=["t_timed"]), spec_l1l0=True, runs=[R("timed", (400, 6000), (4, 8), "C13", True), R("chain", (150, 3000), (2, 6), "C13", True),
                                                            R("lockhold", (0, 0), (1, 1), "C13", True, own_all=True, programs_fn=lockhold_sweep(24, (12, 16), "lockhold13")),
-                                                           R("casrace", (0, 0), (1, 1), "C13", True, own_all=True, programs_fn=casrace_sweep("casrace13"))]),
+                                                           R("casrace", (0, 0), (1, 1), "C13", True, own_all=True, programs_fn=casrace_sweep("casrace13")),
+                                                           R("waiters_timed", (250, 4000), (2, 3), "C13", True, own_all=True)]),
     "C04": dict(mc=MC("mixed"), runs=[R("integrity_" + pl, (n, n * 12), (2, 4), "C04", True, own_all=True)
                                       for pl, n in (("u8", 260), ("u16", 120), ("w1", 60), ("h4", 60), ("b3", 60), ("p5", 60), ("z0", 40), ("z64", 40))]
                 + [R("integrity_race", (0, 0), (1, 1), "C04", True, own_all=True, programs_fn=integrity_race_sweep((42, 600), (30, 45), "integrace"))],
@@ -663,6 +667,24 @@ def epilogue_findings(ls, prog):
                 del open_t[e["p"]]
             if cur is not None and e["o"] == cur["o"]:
                 cur = None
+    # scenario-level expectation: the timed calls of the listed processes expire undisturbed and must report Timeout
+    exp = prog.get("expect_timeout")
+    if exp:
+        cur_t = {}
+        for l in ls:
+            try:
+                e = json.loads(l) if l.startswith('{"e":"B"') or l.startswith('{"e":"E"') else None
+            except ValueError:
+                continue
+            if e is None:
+                continue
+            if e["e"] == "B" and e["p"] in exp and e["op"] in ("send_timeout", "send_option_timeout", "recv_timeout"):
+                cur_t[e["p"]] = e
+            elif e["e"] == "E" and e["p"] in cur_t and cur_t[e["p"]]["o"] == e["o"]:
+                if e["r"] != "Timeout":
+                    out.append(dict(stuck_ops=[dict(op=cur_t[e["p"]]["op"], pend="returned %s" % e["r"])],
+                                    what="a timed call whose deadline expired undisturbed did not report Timeout"))
+                del cur_t[e["p"]]
     return out
 
 
